@@ -231,7 +231,10 @@ inline uint64_t splitmix(uint64_t& s) {
 
 inline int draw_k(pbt::Source& src) {
     static const int K[11] = {3, 2, 4, 5, 1, 6, 7, 8, 9, 10, 0};
-    return K[src.weighted({16, 14, 10, 8, 5, 6, 5, 4, 4, 4, 2})];
+    // class 11: 17..40 sequences — more than the insertion-sort threshold (16) of std::sort, where the
+    // order in which a library sort leaves equal keys starts to matter (seeded change seeded/C07)
+    size_t c = src.weighted({16, 14, 10, 8, 5, 6, 5, 4, 4, 4, 2, 6});
+    return c < 11 ? K[c] : (int)src.range(17, 40);
 }
 
 static const char* const ENTRY_NAME[2][3] = {
@@ -428,6 +431,7 @@ void run_case(pbt::Source& src, const Cfg& cfg) {
     if (nonempty < k) pbt::label("has_empty_seq");
     if (k >= 1 && nonempty == 0) pbt::label("all_seqs_empty");
     if (dominant && k > 0) pbt::label("dominant_seq");
+    if (k >= 17) pbt::label("k>=17");
     if (nvals > 8) pbt::label("keys_wide");
     else if (nvals == 1) pbt::label("keys_all_equal");
     else pbt::label("keys_2..8_values");
